@@ -40,7 +40,7 @@ def run(ctx):
     binary = owsim.build_owsim(ctx)
     # (1) B1 on the real binary: two families of graphs (wide batches / three generations)
     # + table-parameter models (dimension sizing from the parameter file) and prefix-related model names (selection flags)
-    for gcfg, n in (("OwSimData_names.cfg", 16 if ctx.quick else 300), ("OwSimData_tables.cfg", 24 if ctx.quick else 400),
+    for gcfg, n in (("OwSimData_scale.cfg", 24 if ctx.quick else 400), ("OwSimData_names.cfg", 16 if ctx.quick else 300), ("OwSimData_tables.cfg", 24 if ctx.quick else 400),
                     ("OwSimData.cfg", 32 if ctx.quick else 500), ("OwSimData_3.cfg", 24 if ctx.quick else 400)):
         cases, st = owsim.graphs(ctx, gcfg)
         ctx.cov["states"] += st["states_distinct"]
@@ -81,6 +81,10 @@ def run(ctx):
     # (3) B3: interleavings chosen by TLC (OwSimSched.tla) forced onto the real binary through the gating hooks
     cases3, _ = owsim.graphs(ctx, "OwSimData_3.cfg")
     owsim.schedule_replay(ctx, cases3, binary, 8 if ctx.quick else 80, 3 if ctx.quick else 10)
+    # ... and on graphs with a zero scaling factor somewhere and array-valued state rows (what a kernel leaves unwritten
+    # shows when the schedule lets a writer purge a generation before a later one runs)
+    cases_s, _ = owsim.graphs(ctx, "OwSimData_scale.cfg")
+    owsim.schedule_replay(ctx, cases_s, binary, 8 if ctx.quick else 80, 3 if ctx.quick else 10, seed_offset=3000, label="b3_scale")
     ctx.assumptions += ["B3: schedules are drawn by TLC's simulation mode from the eager behaviours of OwSim (hook-less continuation steps first); a schedule the goroutines cannot follow is counted, not judged",
                         "S1: HDF5 library is harness/fakehdf5", "protocol model: <=4 generations (thorough 5), 2 model types, links between every pair of generations",
                         "B1 graphs: all graphs with <=2 model types of {Input,Sum,FixedPartition,Muskingum}, <=2 generations, <=2 nodes per batch, <=2 links, T=3; a seeded sample is executed",
